@@ -35,6 +35,14 @@ def body_containing(fn: ast.AST, stmt: ast.AST):
 # --------------------------------------------------------------------------- benign (text-preserving) mutations
 def witness_coerce_normalisation(fn: ast.AST, stmt: ast.AST) -> bool:
     """`if not isinstance(v, NixExpression): v = coerce_expression(v); X.value = v` with `v = X.value` before."""
+    if isinstance(stmt, ast.Assign) and len(stmt.targets) == 1 and isinstance(stmt.targets[0], ast.Attribute) and isinstance(stmt.value, ast.Call):
+        # the same normalisation without the temporary: `if not isinstance(X.value, NixExpression): X.value = coerce_expression(X.value)`
+        slot = norm(stmt.targets[0])
+        owner, body = body_containing(fn, stmt)
+        if not (isinstance(owner, ast.If) and body is owner.body and norm(stmt.value) == f"coerce_expression({slot})"):
+            return False
+        t, neg = strip_not(owner.test)
+        return bool(neg and isinstance(t, ast.Call) and callee(t) == "isinstance" and norm(t.args[0]) == slot and norm(t.args[1]) == "NixExpression")
     if not (isinstance(stmt, ast.Assign) and len(stmt.targets) == 1 and isinstance(stmt.targets[0], ast.Attribute)
             and isinstance(stmt.value, ast.Name)):
         return False
@@ -83,7 +91,11 @@ def benign_mutation(func_key: str, fn: ast.AST, stmt: ast.AST) -> str | None:
         return None
     text = alpha(stmt, fn)
     for fk, st, reason, wit in BENIGN_MUTATIONS:
-        if fk == func_key and st == text and wit(fn, stmt):
+        # the statement is identified by what it stores into (the slot), the witness decides whether it is the reviewed
+        # normalisation — not the spelling of its right-hand side
+        same_slot = st == text or (isinstance(stmt, ast.Assign) and len(stmt.targets) == 1 and isinstance(stmt.targets[0], ast.Attribute)
+                                   and st.split(" = ")[0].split(".")[-1] == stmt.targets[0].attr)
+        if fk == func_key and same_slot and wit(fn, stmt):
             return reason
     return None
 
